@@ -2,7 +2,8 @@
   Stef.Receiver: the per-stream STEF receiver of the collector as a labelled transition system.
   Core Lean only (linked into the driver).
 
-  Transcribed from, AS WRITTEN (defects included):
+  Transcribed from, AS WRITTEN (defects included; state of /repo after fix commit 3f3aa6e, which
+  made the reported bad-data range start at fromRecordID+1):
     otelcol/internal/stefreceiver/stef.go                 onStream  (the decoding loop)
     otelcol/internal/stefreceiver/internal/responder.go   Responder (ScheduleAck,
         ScheduleBadDataResponse, LastError, Stop, Run, composeBadDataResponse)
@@ -16,7 +17,7 @@
       await    --decode n-->   decoded    Convert() read one frame of n >= 1 records:
                                           fromRecordID = RecordCount() before, toRecordID = after
       await    --readFail-->   exited     Convert() failed (EOF, cancel, decode error)
-      decoded  --consume o-->  needAck to | needBad from to | exited   (accept / permanent / transient)
+      decoded  --consume o-->  needAck to | needBad from+1 to | exited (accept / permanent / transient)
       needAck  --schedAck-->   top        nextAckID.Store(to)
       needBad  --schedBad-->   top        badDataCh <- {from,to}   (enabled only if len < 10)
   Responder.Run (program counter `QPc`)
@@ -114,7 +115,9 @@ def step (s : State) : Event → Option State
       match o with
       | .pending => none
       | .accept => some { s with batches := { b with out := .accept } :: bs, rpc := .needAck b.to }
-      | .perm => some { s with batches := { b with out := .perm } :: bs, rpc := .needBad b.from_ b.to }
+      | .perm =>
+        -- BadData{FromID: fromRecordID + 1, ToID: toRecordID}: exactly the records of the batch
+        some { s with batches := { b with out := .perm } :: bs, rpc := .needBad (b.from_ + 1) b.to }
       | .trans => some { s with batches := { b with out := .trans } :: bs, rpc := .exited, stopReq := true }
     | _, _ => none
   | .schedAck =>
@@ -202,7 +205,7 @@ def pendingBad (s : State) : List Range := inflight s ++ s.queue ++ rpcBad s
 
 /-- the (FromID, ToID) pairs of the permanently rejected batches, oldest first -/
 def permRanges (bs : List Batch) : List Range :=
-  ((bs.reverse).filter (fun b => b.out = .perm)).map (fun b => (b.from_, b.to))
+  ((bs.reverse).filter (fun b => b.out = .perm)).map (fun b => (b.from_ + 1, b.to))
 
 /-- what the property demands of an acknowledged id `a`: every record up to `a` was decoded, and the
     batch of each such record was accepted by the consumer or permanently rejected AND already
@@ -210,7 +213,7 @@ def permRanges (bs : List Batch) : List Range :=
 def Covered (s : State) (a : Nat) : Prop :=
   a ≤ s.decoded ∧
   ∀ b ∈ s.batches, b.from_ < a →
-    b.out = .accept ∨ (b.out = .perm ∧ (b.from_, b.to) ∈ reportedOk s)
+    b.out = .accept ∨ (b.out = .perm ∧ (b.from_ + 1, b.to) ∈ reportedOk s)
 
 /-- id `i` lies in the inclusive range `r` -/
 def covers (r : Range) (i : Nat) : Prop := r.1 ≤ i ∧ i ≤ r.2
@@ -218,11 +221,9 @@ def covers (r : Range) (i : Nat) : Prop := r.1 ≤ i ∧ i ≤ r.2
 /-- record id `i` belongs to batch `b` (ids `from_+1 .. to`) -/
 def Batch.has (b : Batch) (i : Nat) : Prop := b.from_ < i ∧ i ≤ b.to
 
-/-- the inclusive range of exactly the records of `b` -/
+/-- the inclusive range of exactly the records of `b`; this is what onStream reports for a
+    permanently rejected batch (`FromID: fromRecordID + 1, ToID: toRecordID`) -/
 def Batch.exactRange (b : Batch) : Range := (b.from_ + 1, b.to)
-
-/-- the range onStream reports for `b`: `FromID = RecordCount()` BEFORE the batch -/
-def Batch.writtenRange (b : Batch) : Range := (b.from_, b.to)
 
 /-- "no tick fires while bad data is waiting in the channel": the excluding hypothesis of the
     `_partial` theorems. A run satisfies it when every `tick` event happens with an empty queue. -/
